@@ -85,15 +85,22 @@ Section SonicBatchComplete.
       split; [reflexivity|]. cbn [length]. repeat split; try lia. constructor; assumption.
   Qed.
 
+  Theorem sonic_batch_m_complete items cs qs evm chal vtape pfs rest :
+    smaps_agree (s_poly_map items) (s_comm_map cs) ->
+    (forall pl pt labels, In (pl, (pt, labels)) (group_queries qs) -> sevals_true (s_poly_map items) evm pt labels) ->
+    (length (group_queries qs) <= length vtape)%nat ->
+    s_batch_open ck items qs chal = Ok (pfs, rest) ->
+    s_batch_check_m vk cs qs evm pfs chal vtape = Ok (true, rest, length (group_queries qs)).
+  Proof.
+    intros Hm He Lt H. unfold s_batch_open in H.
+    destruct (sgroups_complete _ _ _ Hm (group_queries qs) chal pfs rest He H) as (rs & Egr & L1 & L2 & Hz).
+    rewrite <- L1. apply sonic_batch_m_all_true; try assumption; lia.
+  Qed.
   Theorem sonic_batch_complete items cs qs ev chal vtape pfs rest :
     smaps_agree (s_poly_map items) (s_comm_map cs) ->
     (forall pl pt labels, In (pl, (pt, labels)) (group_queries qs) -> sevals_true (s_poly_map items) (evals_map ev) pt labels) ->
     (length (group_queries qs) <= length vtape)%nat ->
     s_batch_open ck items qs chal = Ok (pfs, rest) ->
     s_batch_check vk cs qs ev pfs chal vtape = Ok (true, rest, length (group_queries qs)).
-  Proof.
-    intros Hm He Lt H. unfold s_batch_open in H.
-    destruct (sgroups_complete _ _ _ Hm (group_queries qs) chal pfs rest He H) as (rs & Egr & L1 & L2 & Hz).
-    rewrite <- L1. apply sonic_batch_all_true; try assumption; lia.
-  Qed.
+  Proof. unfold s_batch_check. apply sonic_batch_m_complete. Qed.
 End SonicBatchComplete.
